@@ -42,6 +42,10 @@ claim('C02',
       'The real SafeRepresenter + Serializer + Emitter and the real Reader + Scanner + Parser + Composer + SafeConstructor are executed symbolically end to end: a str of one free character over the whole code-point range (2 free characters in the thorough tier) in root / key / value / nested contexts under every default_style, both allow_unicode settings and option cells (canonical, width, indent, line_break); 2-3 character strings over a 34-character alphabet holding one representative of every character class the emitter and scanner distinguish; folding texts over {a, space, LF} with width and depth as solver variables; list/dict graphs with symbolic child pointers (sharing, cycles); bytes through the base64 models; ints; a constant table for floats/dates/sets. The postcondition is type-strict equality (graph isomorphism for containers).',
       'Py leg only. The symbolic str is injected into the ScalarNode that SafeDumper.represent_data produced for a placeholder, and read back at node level, because a real dict cannot hold a symbolic key. Trusted: CrossHair/z3, models M2/M3/M4e/M8. float text is decided in C08 (language queries). Known finding K4; fixed finding F3.')
 
+claim('C05',
+      'The real Emitter and the real Scanner + Parser are executed symbolically end to end on event streams whose ingredients are solver variables: the scalar value (one free character over the whole code-point range; 2-character strings over a 34-character class alphabet), the requested style (6), the implicit pair (4), anchor, tag kind (7, one with a free ASCII character and boundary code points of every UTF-8 length class), the skeleton (6), %YAML / %TAG directives, canonical, allow_unicode, width. The parsed events must equal the emitted ones up to legitimate tag elision. Every sequence of up to 4 (5) events over the 10 event classes is fed to the emitter (only EmitterError allowed), and the prepare_* helpers are decided on every string of up to 2 (3) characters.',
+      'Py leg only. %TAG prefixes/handles are picked from class representatives (a dict of handles cannot hold a symbolic key); lone surrogates in tags are outside the claim. Trusted: CrossHair/z3, models M1 (line-based in emitter.py), M2, M4e. Fixed findings F2, F3.')
+
 NA = {
  'C06': 'every comparison is between two artefacts of libyaml (a compiled system .so behind a Cython binding that cannot be rebuilt offline); symbolic values are realised at the extension boundary, so no solver variable survives into the code under comparison',
  'C20': 'asymptotic growth over input sizes: bounded symbolic execution cannot observe doubling and an unbounded cost argument is proof-assistant work; the anchored look-ahead mechanisms are decided as one-step invariants under C09/C18',
